@@ -192,3 +192,31 @@ func M_Replacer_Replace(pairs []string, s string) string {
 	}
 	return string(out)
 }
+
+// M_getRegex_FindStringSubmatch models FindStringSubmatch for the literal
+// `^GET /(?:\?([a-z0-9=&]+))? HTTP` (server.go): nil if no match, else [whole, group].
+func M_getRegex_FindStringSubmatch(s string) []string {
+	const pre = "GET /"
+	if len(s) < len(pre) || s[:len(pre)] != pre {
+		return nil
+	}
+	i := len(pre)
+	group := ""
+	// optional group, tried first (greedy ?), with backtracking to "absent"
+	if i < len(s) && s[i] == '?' {
+		j := i + 1
+		for j < len(s) && (s[j] >= 'a' && s[j] <= 'z' || s[j] >= '0' && s[j] <= '9' || s[j] == '=' || s[j] == '&') {
+			j++
+		}
+		// the class is greedy but may give characters back; " HTTP" starts with a space, which is
+		// not in the class, so only the full run can be followed by it
+		if j > i+1 && len(s) >= j+5 && s[j:j+5] == " HTTP" {
+			group = s[i+1 : j]
+			return []string{s[:j+5], group}
+		}
+	}
+	if len(s) >= i+5 && s[i:i+5] == " HTTP" {
+		return []string{s[:i+5], ""}
+	}
+	return nil
+}
